@@ -498,6 +498,18 @@ impl<B: Backend> Real<B> {
     };
     (e, s)
   }
+  /// The store calls of `observe` without their evaluation. Every prefix of a history was judged with a complete
+  /// observation after its last operation, so the store a state stands for has seen these calls after EVERY operation;
+  /// the replay repeats them, otherwise state an observer leaves behind in the store (a cache filled by `sign`, say)
+  /// would differ between the store that was judged and the store that is expanded.
+  fn touch(&self) {
+    let store = B::keys(&self.store);
+    // (issued ids only: calls with ids the store never issued are repeated by the judged step itself)
+    for s in &self.slots {
+      let _ = guard(|| B::block_on(store.exists(&s.id)));
+      let _ = guard(|| B::block_on(store.sign(&s.id, MSG, &s.public)));
+    }
+  }
   fn observe(&self) -> KObs {
     KObs {
       slots: self.slots.iter().map(|s| self.observe_id(&s.id, &s.public)).collect(),
@@ -610,6 +622,7 @@ impl<B: Backend> KModel<B> {
     for op in &s.hist {
       let r = real.apply(*op);
       real.record(*op, &r);
+      real.touch();
       if self.mode.reopen_each && B::PERSISTENT {
         // a failure here shows up in the judged step that follows (and was reported where this prefix was judged)
         let _ = guard(|| B::reopen_keys(&mut real.store));
